@@ -12,6 +12,7 @@ SPEC = dict(
             _e("c38_v1_long", "v1 'PROXY UNKNOWN' + filler + CRLF + b with a total line length of 106..109 bytes (limit 107), two unconstrained filler bytes" + _P, ("ok", "bad")),
             _e("c38_v2_encoded", "v2 reference encoder: command in {LOCAL, PROXY} and protocol in {UNSPEC, STREAM, DGRAM} symbolic; family in {UNSPEC (block of 0..3 symbolic bytes), INET, INET6, UNIX}; all address and port bytes symbolic (UNIX: first/last 4 bytes); 0..2 TLVs with symbolic type, length 0..2, symbolic value; one unconstrained byte after the header" + _P, ("ok",)),
             _e("c38_v2_mutated", "valid v2 header (PROXY, TCP/IPv4, one 2-byte TLV, one following byte) with unconstrained bytes at one of 5 position groups: version/command + family/protocol; both length bytes; TLV type + both TLV length bytes; 11th magic byte + version/command; family/protocol + low length byte" + _P),
+            dict(name="c38_known_lenient_v1", known=True, reach=[], max_samples=0, sample_every=0, bounds="KNOWN FINDING C38-lenient-v1 only: 'PROXY TCP4 1.2.3.4 5.6.7.8 ' b b ' 2' CRLF and 'PROXY TCP4 1.2.' b ' 5.6.7.8 1 2' CRLF restricted to headers the reference marks lenient (leading-zero port, inet_aton-only IPv4 form); violations are listed in known_findings.json and printed as KNOWN-FINDING"),
         ],
         thorough=[
             _e("c38_v1_values", "as quick" + _P, ("ok", "bad")),
@@ -20,13 +21,13 @@ SPEC = dict(
             _e("c38_v1_long", "as quick" + _P, ("ok", "bad")),
             _e("c38_v2_encoded", "as quick with TLV lengths 0..3" + _P, ("ok",)),
             _e("c38_v2_mutated", "as quick plus 2 position groups of 4 unconstrained bytes: all four bytes after the magic; both length bytes + both TLV length bytes" + _P),
+            dict(name="c38_known_lenient_v1", known=True, reach=[], max_samples=0, sample_every=0, bounds="KNOWN FINDING C38-lenient-v1 only: 'PROXY TCP4 1.2.3.4 5.6.7.8 ' b b ' 2' CRLF and 'PROXY TCP4 1.2.' b ' 5.6.7.8 1 2' CRLF restricted to headers the reference marks lenient (leading-zero port, inet_aton-only IPv4 form); violations are listed in known_findings.json and printed as KNOWN-FINDING"),
         ]),
     timeout=dict(quick=170, thorough=1500),
     stubs=["getaddrinfo/freeaddrinfo/gai_strerror: numeric-host model in the harness for the interpreted build (inet_aton forms for IPv4 text, RFC 4291 forms for IPv6 text, EAI_NONAME for everything else = no resolver answer); the native replay uses the real libc",
            "Ip::EnableIpv6 = IPV6_ON (state after Ip::ProbeTransport() on a dual-stack host)",
            "ProxyProtocol::Header::command_ read through '#define private public'",
            "debugs() disabled"],
-    assumptions=["KNOWN-FINDING candidates excluded by vf_assume (v1 only): bytes other than CR after the destination port, ports with leading zeros, IPv4 text in inet_aton-only forms (fewer than 4 parts, octal parts) are accepted by One::Parse although the specification calls them malformed",
-                 "text that is not a numeric address does not resolve (Ip::Address::GetHostByName() would ask the resolver)"],
+    assumptions=["known finding C38-lenient-v1: v1 headers with leading zeros in a port or an IPv4 address in an inet_aton-only form are examined only by c38_known_lenient_v1"],
     outside="v1 lines other than the listed skeletons (in particular v4-mapped IPv6 text such as ::ffff:1.2.3.4, which Ip::Address classifies as IPv4); v2 headers with more than 2 TLVs or TLV values longer than 3 bytes; Header::toMime/getValues/getElem; exception message texts",
 )
